@@ -101,6 +101,12 @@ class AsyncHTTP2Connection(AsyncConnectionInterface):
 
         async with self._init_lock:
             if not self._sent_connection_init:
+                if self._state == HTTPConnectionState.CLOSED:
+                    # A request that was ahead of us failed to initialise the
+                    # connection and closed it while we waited for the lock.
+                    self._request_count -= 1
+                    raise ConnectionNotAvailable()
+
                 try:
                     kwargs = {"request": request}
                     async with Trace("send_connection_init", logger, request, kwargs):
